@@ -521,7 +521,7 @@ func (sc *specCtx) index(x, i *Term) Val {
 		switch u := types.Unalias(x.T).Underlying().(type) {
 		case *types.Slice:
 			arr := "(select " + vc.heapGet(sc.st, vc.arrHV(u.Elem())) + " (s-ref " + x.S + "))"
-			return &Term{"(select " + arr + " " + vc.add("(s-off "+x.S+")", ii) + ")", vc.sortOf(u.Elem()), u.Elem()}
+			return &Term{"(select " + arr + " " + vc.at("(s-off "+x.S+")", ii) + ")", vc.sortOf(u.Elem()), u.Elem()}
 		case *types.Array:
 			return &Term{"(select " + x.S + " " + ii + ")", vc.sortOf(u.Elem()), u.Elem()}
 		case *types.Pointer:
@@ -531,14 +531,14 @@ func (sc *specCtx) index(x, i *Term) Val {
 			}
 		case *types.Basic:
 			if u.Info()&types.IsString != 0 && !vc.absStr {
-				return &Term{"(select (str-arr " + x.S + ") " + vc.add("(str-off "+x.S+")", ii) + ")", vc.intSort(8), types.Typ[types.Uint8]}
+				return &Term{"(select (str-arr " + x.S + ") " + vc.at("(str-off "+x.S+")", ii) + ")", vc.intSort(8), types.Typ[types.Uint8]}
 			}
 		case *types.Map:
 			return vc.mapLookup(sc.st, x, x.T, i, false)
 		}
 	}
 	if x.Sort == SStr {
-		return &Term{"(select (str-arr " + x.S + ") " + vc.add("(str-off "+x.S+")", ii) + ")", vc.intSort(8), types.Typ[types.Uint8]}
+		return &Term{"(select (str-arr " + x.S + ") " + vc.at("(str-off "+x.S+")", ii) + ")", vc.intSort(8), types.Typ[types.Uint8]}
 	}
 	if strings.HasPrefix(x.Sort, "(Array ") {
 		return &Term{"(select " + x.S + " " + ii + ")", arrayElemSort(x.Sort), nil}
@@ -594,6 +594,14 @@ func (sc *specCtx) slice(e *CSlice) Val {
 
 func (sc *specCtx) field(xv Val, name string) Val {
 	vc := sc.vc
+	if nt, ok := xv.(*NamedTuple); ok {
+		for i, n := range nt.Names {
+			if n == name && i < len(nt.Vals) {
+				return nt.Vals[i]
+			}
+		}
+		unsup("spec: no result named %s", name)
+	}
 	x, ok := xv.(*Term)
 	if !ok {
 		unsup("spec: field %s of non-term", name)
